@@ -105,7 +105,7 @@ class PasqalDevice(cirq.devices.Device):
                 mask.
         """
 
-        if not isinstance(operation, cirq.GateOperation):
+        if not isinstance(getattr(operation, 'untagged', operation), cirq.GateOperation):
             raise ValueError("Unsupported operation")
 
         if not self.is_pasqal_device_op(operation):
